@@ -35,7 +35,7 @@ ASSUMPTIONS = [
     "patterns are base names, simple globs, 'name/' directory patterns or root-relative paths 'a/b'; negation, leading '/', '**', comments and trailing blanks are not generated (their meaning is not stated)",
     "path components are matched case-sensitively",
 ]
-BUDGET = {"quick": (200, 4), "thorough": (8000, 16)}
+BUDGET = {"quick": (200, 4), "thorough": (64000, 16)}
 REQUIRED = ["glob", "dir_pattern", "basename", "relpath_pattern", "ii_file", "nested", "child_after_parent", "x_file_and_dir", "multi_generation", "duplicate_pattern", "verify_dh"]
 
 DEFAULTS = [".DS_Store", "ascmhl", "ascmhl/"]
